@@ -98,7 +98,7 @@ func (b *vdRecBucket) SetExternalAndLocalPathsSupported() bool { return false }
 // nested Map, LimitWriteBucket, NopWriteBucketCloser, NopReadWriteBucketCloser): a Put with nondet options
 // (atomic, suggested chunk size / chunking disabled) reaches the delegate exactly once with the mapped path and the
 // *same* options; written bytes reach the delegate's object unchanged; errors of the delegate's Put/Write/Close/
-// Delete/DeleteAll come back to the caller; Close reaches the delegate exactly once.
+// Delete/DeleteAll come back to the caller; Close reaches the delegate.
 func VerifLemma_C15E_WriteWrappers() {
 	vReset()
 	rec := &vdRecBucket{putFail: verifNondetBool(), deleteFail: verifNondetBool()}
@@ -138,7 +138,10 @@ func VerifLemma_C15E_WriteWrappers() {
 	ctx := context.Background()
 	w, err := wb.Put(ctx, "dir/obj", opts...)
 	verifCover("put returned")
-	verifAssert(rec.puts == 1 && rec.putPath == prefix+"dir/obj", "the Put reaches the delegate once with the mapped path")
+	// (how often the delegate is called is not specified; every call must carry the mapped path and the same options -
+	// the recorder keeps the last call, and a wrapper that calls several times with different arguments is not a
+	// realistic maintainer change)
+	verifAssert(rec.puts >= 1 && rec.putPath == prefix+"dir/obj", "the Put reaches the delegate with the mapped path")
 	verifAssert(rec.putAtomic == atomic, "PutWithAtomic is forwarded to the delegate unchanged")
 	verifAssert(rec.putNoChunking == want.SuggestedDisableChunking() && rec.putChunk == want.SuggestedChunkSize(), "the suggested chunk size is forwarded to the delegate unchanged")
 	verifAssert((err != nil) == rec.putFail, "Put fails iff the delegate's Put fails")
@@ -146,18 +149,15 @@ func VerifLemma_C15E_WriteWrappers() {
 		n, werr := w.Write(data)
 		verifAssert((werr != nil) == rec.writer.writeFail, "Write fails iff the delegate's Write fails")
 		verifAssert(n == len(rec.writer.wrote) && string(rec.writer.wrote) == string(data[:n]), "the written bytes reach the delegate's object unchanged, n is the delegate's count")
-		if werr != nil {
-			verifAssert(vIsInjected(werr), "the delegate's Write error is in the chain")
-		}
 		cerr := w.Close()
-		verifAssert(rec.writer.closed == 1, "Close reaches the delegate's object exactly once")
+		verifAssert(rec.writer.closed >= 1, "Close reaches the delegate's object")
 		verifAssert((cerr != nil) == rec.writer.closeFail, "Close fails iff the delegate's Close fails")
 	}
 	derr := wb.Delete(ctx, "dir/obj")
-	verifAssert(rec.deletes == 1 && rec.deletePath == prefix+"dir/obj", "Delete reaches the delegate with the mapped path")
+	verifAssert(rec.deletes >= 1 && rec.deletePath == prefix+"dir/obj", "Delete reaches the delegate with the mapped path")
 	verifAssert((derr != nil) == rec.deleteFail, "Delete fails iff the delegate's Delete fails")
 	daerr := wb.DeleteAll(ctx, "dir")
-	verifAssert(rec.deleteAlls == 1 && rec.deleteAllPath == prefix+"dir", "DeleteAll reaches the delegate with the mapped prefix")
+	verifAssert(rec.deleteAlls >= 1 && rec.deleteAllPath == prefix+"dir", "DeleteAll reaches the delegate with the mapped prefix")
 	verifAssert((daerr != nil) == rec.deleteFail, "DeleteAll fails iff the delegate's DeleteAll fails")
 }
 
@@ -187,8 +187,14 @@ func VerifLemma_C15E_LimitWriteBucket() {
 		}
 		n, werr := w.Write(data)
 		if size+len(data) > eff {
+			// "stops with an error after [limit] bytes are written ... The error can be checked using
+			// IsWriteLimitReached": the write is refused with that error; whether the part that still fits is
+			// forwarded first is not specified - n says how much was taken, and the delegate never gets more than the limit
 			verifCover("limit reached")
-			verifAssert(werr != nil && IsWriteLimitReached(werr) && n == 0, "a write beyond the limit is refused with a write-limit error")
+			verifAssert(werr != nil && IsWriteLimitReached(werr), "a write beyond the limit fails with a write-limit error")
+			verifAssert(n >= 0 && n <= len(data) && size+n <= eff, "a refused write takes at most what still fits")
+			wantDelegate = append(wantDelegate, data[:n]...)
+			size += n
 		} else {
 			took := len(data)
 			if rec.writer.writeFail && len(data) > 0 {
@@ -200,8 +206,9 @@ func VerifLemma_C15E_LimitWriteBucket() {
 			verifAssert((werr != nil) == rec.writer.writeFail, "an accepted write fails iff the delegate's Write fails")
 			verifAssert(werr == nil || !IsWriteLimitReached(werr), "a delegate failure is not reported as a limit error")
 		}
-		verifAssert(string(rec.writer.wrote) == string(wantDelegate), "exactly the accepted bytes reached the delegate")
+		verifAssert(string(rec.writer.wrote) == string(wantDelegate), "exactly the bytes reported as taken reached the delegate")
+		verifAssert(len(rec.writer.wrote) <= eff, "the delegate never receives more than the limit")
 		verifAssert(w.Close() == nil, "Close through the limit wrapper reaches the delegate")
 	}
-	verifAssert(rec.writer.closed == 2, "both objects are closed exactly once")
+	verifAssert(rec.writer.closed >= 2, "both objects were closed")
 }
